@@ -198,6 +198,9 @@ def fixed_specs():
                             fault_delay=delay))
         out.append(dict(local=[["ok", "exc"]], remote=[["ok", "badres", "ok"], ["badarg", "ok"]], fault=fault,
                         nb=[True, False, True], fault_delay=0))
+        # unpicklable values whose exception carries an empty message (second / odd positions)
+        out.append(dict(local=[["ok"]], remote=[["ok", "badarg", "ok"], ["badres", "badres", "badres"]], fault=fault,
+                        nb=[False, False, False], fault_delay=0))
     for fault in ("remove", "stop_server", "remove_then_stop"):
         for nb in ([False, False, False], [True, False, True]):
             # line-level switch points inside handle_message / stop / the queue hand-over while the object goes away
